@@ -1,7 +1,7 @@
 (* C16 - text fields never overrun a buffer and round-trip their content.
    Only statements (fixed in Spec/TextSpec.v) and their closing lemma; nothing else lives here. *)
 From Coq Require Import ZArith List.
-From N2kV Require Import Base.Res Model.TextDefs Spec.TextSpec Proofs.TextProofsA Proofs.TextProofsB.
+From N2kV Require Import Base.Res Model.TextDefs Spec.TextSpec Proofs.TextProofsA Proofs.TextProofsB Proofs.TextProofsC.
 Import ListNotations.
 Local Open Scope Z_scope.
 
@@ -20,3 +20,15 @@ Print Assumptions C16_var_str_degenerate.
 Theorem C16_get_safe : get_safe_stmt.
 Proof. exact get_safe. Qed.
 Print Assumptions C16_get_safe.
+
+Theorem C16_roundtrip_fixed : roundtrip_fixed_stmt.
+Proof. exact roundtrip_fixed. Qed.
+Print Assumptions C16_roundtrip_fixed.
+
+Theorem C16_roundtrip_var_ascii : roundtrip_var_ascii_stmt.
+Proof. exact roundtrip_var_ascii. Qed.
+Print Assumptions C16_roundtrip_var_ascii.
+
+Theorem C16_roundtrip_ais : roundtrip_ais_stmt.
+Proof. exact roundtrip_ais. Qed.
+Print Assumptions C16_roundtrip_ais.
